@@ -403,29 +403,36 @@ theorem lower_lowerHost (h : Str) : lower (lowerHost h) = lower h := by
     conv => rhs; rw [hspec]
     simp only [Canonicalize.lower_append, Canonicalize.lower_idem]
 
+/-- the host rule on the `.hostname` of two non-empty host texts with the same canonical host -/
+theorem hostRule_hostname_of_canonHost (puny : Str → Str) (hc : C04.PunyCase puny) (g : UrlG) (h' : Str)
+    (he : g.host ≠ []) (he' : h' ≠ []) (heq : canonHost puny h' = canonHost puny g.host) :
+    hostRule puny ({ g with host := h' } : UrlG).hostname = hostRule puny g.hostname := by
+  unfold UrlG.hostname
+  have n1 : (lowerHost g.host).isEmpty = false := by
+    have := BracketHost.lowerHost_ne_nil he
+    cases hx : lowerHost g.host with
+    | nil => exact absurd hx this
+    | cons _ _ => rfl
+  have n2 : (lowerHost h').isEmpty = false := by
+    have := BracketHost.lowerHost_ne_nil he'
+    cases hx : lowerHost h' with
+    | nil => exact absurd hx this
+    | cons _ _ => rfl
+  simp only [he, he', if_false, hostRule, n1, n2, Bool.false_eq_true]
+  congr 1
+  rw [← C04.canonHost_lower puny hc (lowerHost h'), ← C04.canonHost_lower puny hc (lowerHost g.host),
+    lower_lowerHost, lower_lowerHost, C04.canonHost_lower puny hc, C04.canonHost_lower puny hc, heq]
+
 theorem hostRule_hostname_case (puny : Str → Str) (hc : C04.PunyCase puny) (g : UrlG) (h' : Str)
     (hl : lower h' = lower g.host) :
     hostRule puny ({ g with host := h' } : UrlG).hostname = hostRule puny g.hostname := by
   have hnil : h' = [] ↔ g.host = [] := by
     rw [← BracketHost.lower_eq_nil_iff, hl, BracketHost.lower_eq_nil_iff]
-  unfold UrlG.hostname
   by_cases he : g.host = []
-  · simp [he, hnil.2 he]
+  · unfold UrlG.hostname; simp [he, hnil.2 he]
   · have he' : h' ≠ [] := fun e => he (hnil.1 e)
-    have n1 : (lowerHost g.host).isEmpty = false := by
-      have := BracketHost.lowerHost_ne_nil he
-      cases hx : lowerHost g.host with
-      | nil => exact absurd hx this
-      | cons _ _ => rfl
-    have n2 : (lowerHost h').isEmpty = false := by
-      have := BracketHost.lowerHost_ne_nil he'
-      cases hx : lowerHost h' with
-      | nil => exact absurd hx this
-      | cons _ _ => rfl
-    simp only [he, he', if_false, hostRule, n1, n2, Bool.false_eq_true]
-    congr 1
-    rw [← C04.canonHost_lower puny hc (lowerHost h'), ← C04.canonHost_lower puny hc (lowerHost g.host),
-      lower_lowerHost, lower_lowerHost, hl]
+    apply hostRule_hostname_of_canonHost puny hc g h' he he'
+    rw [← C04.canonHost_lower puny hc h', hl, C04.canonHost_lower puny hc]
 
 /-- on the pieces -/
 theorem canonG_host_case (puny : Str → Str) (hc : C04.PunyCase puny) (o : Opts) (g : UrlG) (h' : Str)
@@ -443,6 +450,59 @@ theorem canon_host_case_string (puny : Str → Str) (hc : C04.PunyCase puny) (o 
     (u u' : Str) (hg : CleansTo g u) (hg' : CleansTo { g with host := h' } u') :
     canonicalizeUrl puny o u' = canonicalizeUrl puny o u :=
   string_of_canonG puny o hdp _ _ u u' hg hg' (canonG_host_case puny hc o g h' hl hg.wf hg'.wf)
+
+/-! ## a host label in punycode or in Unicode -/
+
+/-- **the host rule does not see whether a label is written `xn--…` or as the decoder reads it**:
+in a host of dot-free labels `A ++ [L] ++ B`, the label `L` against `canonLabel puny L` — for an
+`xn--` label, `lower (puny ("xn--" ++ L.drop 4))`: the Unicode spelling the idna codec gives -/
+theorem canonHost_label (puny : Str → Str) (hp : PunyLaws puny) (A B : List Str) (L : Str)
+    (hA : ∀ x ∈ A, '.' ∉ x) (hB : ∀ x ∈ B, '.' ∉ x) (hL : '.' ∉ L) :
+    canonHost puny (join ['.'] (A ++ canonLabel puny L :: B)) =
+      canonHost puny (join ['.'] (A ++ L :: B)) := by
+  have hD := dot_not_mem_canonLabel puny hp L hL
+  rw [canonHost_eq, canonHost_eq, splitOn_join '.' _ (by simp), splitOn_join '.' _ (by simp)]
+  · simp only [List.map_append, List.map_cons, canonLabel_idem puny hp]
+  · intro x hx
+    simp only [List.mem_append, List.mem_cons] at hx
+    rcases hx with hx | rfl | hx
+    · exact hA x hx
+    · exact hL
+    · exact hB x hx
+  · intro x hx
+    simp only [List.mem_append, List.mem_cons] at hx
+    rcases hx with hx | rfl | hx
+    · exact hA x hx
+    · exact hD
+    · exact hB x hx
+
+/-- on the pieces -/
+theorem canonG_host_label (puny : Str → Str) (hp : PunyLaws puny) (hc : C04.PunyCase puny) (o : Opts)
+    (g : UrlG) (A B : List Str) (L : Str) (hhost : g.host = join ['.'] (A ++ L :: B))
+    (hA : ∀ x ∈ A, '.' ∉ x) (hB : ∀ x ∈ B, '.' ∉ x) (hL : '.' ∉ L)
+    (he : g.host ≠ []) (he' : join ['.'] (A ++ canonLabel puny L :: B) ≠ [])
+    (hw : g.wf = true) (hw' : ({ g with host := join ['.'] (A ++ canonLabel puny L :: B) } : UrlG).wf = true) :
+    canonG puny o ({ g with host := join ['.'] (A ++ canonLabel puny L :: B) } : UrlG) = canonG puny o g :=
+  canonG_congr_authority puny o g _ hw hw' rfl rfl rfl rfl rfl rfl
+    (hostRule_hostname_of_canonHost puny hc g _ he he'
+      (by rw [hhost]; exact canonHost_label puny hp A B L hA hB hL)) rfl Iff.rfl
+
+/-- **writing a host label in punycode or in Unicode never changes the result**: the host of `g`
+is `A.L.B` (dot-free labels), the other spelling has `canonLabel puny L` in place of `L` — the
+decoded, lower-cased label; both hosts non-empty; decoder laws `PunyLaws` (no dot from a dot-free
+label, a decoded label that still starts with `xn--` is stable) and `PunyCase`, both evaluated on
+the real codec on every run.  (The modelled parser lower-cases ASCII only: a Unicode label with a
+non-ASCII character that `str.lower` changes is outside the parser model, `Py/UrlAccessors.lean`.) -/
+theorem canon_punycode_label_string (puny : Str → Str) (hp : PunyLaws puny) (hc : C04.PunyCase puny)
+    (o : Opts) (hdp : ProtoLetters o.defaultProtocol)
+    (g : UrlG) (A B : List Str) (L : Str) (hhost : g.host = join ['.'] (A ++ L :: B))
+    (hA : ∀ x ∈ A, '.' ∉ x) (hB : ∀ x ∈ B, '.' ∉ x) (hL : '.' ∉ L)
+    (he : g.host ≠ []) (he' : join ['.'] (A ++ canonLabel puny L :: B) ≠ [])
+    (u u' : Str) (hg : CleansTo g u)
+    (hg' : CleansTo { g with host := join ['.'] (A ++ canonLabel puny L :: B) } u') :
+    canonicalizeUrl puny o u' = canonicalizeUrl puny o u :=
+  string_of_canonG puny o hdp _ _ u u' hg hg'
+    (canonG_host_label puny hp hc o g A B L hhost hA hB hL he he' hg.wf hg'.wf)
 
 /-! ## explicit default port -/
 
@@ -708,5 +768,40 @@ example :
       (by decide +kernel) (by decide +kernel),
    canon_path_escaped_space_string id exO protoLetters_https exG "/p".toList "q/r".toList rfl _ _
       (by decide +kernel) (by decide +kernel)⟩
+
+/-- a decoder that knows one label (`xn--caf-dma` ↦ `café`, any letter case), to exercise the
+punycode clause on something else than the identity -/
+def toyPuny (x : Str) : Str := if lower x = "xn--caf-dma".toList then "café".toList else x
+
+theorem toyPuny_laws : PunyLaws toyPuny ∧ C04.PunyCase toyPuny := by
+  refine ⟨⟨?_, ?_⟩, ?_⟩
+  · intro x hx
+    unfold toyPuny
+    split
+    · decide
+    · exact hx
+  · intro x hx
+    unfold toyPuny at hx ⊢
+    by_cases h : lower x = "xn--caf-dma".toList
+    · rw [if_pos h] at hx
+      exact absurd hx (by decide)
+    · rw [if_neg h, if_neg (by rw [Canonicalize.lower_idem]; exact h), Canonicalize.lower_idem]
+  · intro x
+    unfold toyPuny
+    by_cases h : lower x = "xn--caf-dma".toList
+    · rw [if_pos h, if_pos (by rw [Canonicalize.lower_idem]; exact h)]
+    · rw [if_neg h, if_neg (by rw [Canonicalize.lower_idem]; exact h), Canonicalize.lower_idem]
+
+/-- `http://xn--caf-dma.fr/` and `http://café.fr/` -/
+example :
+    canonLabel toyPuny "XN--caf-dma".toList = "café".toList ∧
+    canonicalizeUrl toyPuny exO "http://café.fr/".toList = canonicalizeUrl toyPuny exO "http://XN--caf-dma.fr/".toList ∧
+    canonicalizeUrl toyPuny exO "http://XN--caf-dma.fr/".toList = some "http://café.fr".toList := by
+  refine ⟨by decide +kernel, ?_, by decide +kernel⟩
+  exact canon_punycode_label_string toyPuny toyPuny_laws.1 toyPuny_laws.2 exO protoLetters_https
+    { proto := .scheme "http".toList, ui := none, host := "XN--caf-dma.fr".toList, port := none,
+      path := "/".toList, query := none, fragment := none }
+    [] ["fr".toList] "XN--caf-dma".toList (by decide +kernel) (by simp) (by decide) (by decide)
+    (by decide) (by decide +kernel) _ _ (by decide +kernel) (by decide +kernel)
 
 end Ural.Props.C02
